@@ -7,24 +7,33 @@ from hypothesis import strategies as st
 from pbt import strategies as S
 from pbt.common import Stats, Sub, Violation
 from pbt.model import NODELIM, Model
-from pbt.sut import mk_incremental_queried, mk_split_merge, query_everything, mk_converter
+from pbt.sut import history_variants, mk_incremental_queried, mk_split_merge, query_everything, mk_converter
 
 PROPERTY_ID = "C06"
 RULE = (
     "Generated: strict converters (synonyms on both sides, case variants, empty prefix, any delimiter; an arm with "
-    "pairwise prefix-free URI prefixes); inputs are known / unknown / synonym / case-varied prefixes, CURIEs and URIs. "
+    "pairwise prefix-free URI prefixes; one case in four with prefixes that contain the delimiter); inputs are known / "
+    "unknown / synonym / case-varied prefixes and near misses (known prefix followed or preceded by the delimiter, whole "
+    "CURIEs, surrounding whitespace, doubled), CURIEs and URIs. "
     "One evaluation = one (converter, input) pair: standardize_prefix / standardize_curie / standardize_uri equal the "
     "linear-scan model, prefix and curie standardisation are idempotent, expand(standardize_curie(c)) == expand(c); on "
     "prefix-free maps standardize_uri is idempotent and compress(standardize_uri(u)) == compress(u). "
     "Non-trivial = the input is a CURIE-prefix synonym, goes through a URI-prefix synonym, or is a case variant of a "
     "different known value; distinct by hash of (records, delimiter, kind, input)."
 )
-ASSUMPTIONS = ["oracle: pbt/model.py + algebraic laws (idempotence, meaning preservation)"]
+ASSUMPTIONS = [
+    "oracle: pbt/model.py + algebraic laws (idempotence, meaning preservation)",
+    "where the canonical prefix of the owning record itself contains the delimiter, standardize_curie is compared with the model "
+    "(split at the first delimiter, look up, re-join) but its idempotence / expand-preservation are not asserted: the result "
+    "re-parses at a different place by the first-delimiter rule of C02, whose quantifier excludes such prefixes explicitly",
+]
 
 
 @st.composite
 def cases(draw, tier="quick"):
-    case = draw(S.scalar_cases(tier))
+    # one case in four registers prefixes that CONTAIN the delimiter (e.g. 'kegg.compound' with delimiter '.'): prefix
+    # standardisation is a plain lookup and must not care
+    case = draw(S.scalar_cases(tier, prefix_no_delimiter=draw(st.integers(0, 3)) != 0))
     recs = case["spec"]["records"]
     d = case["spec"]["delimiter"]
     ps = S.all_prefixes(recs)
@@ -41,6 +50,11 @@ def cases(draw, tier="quick"):
             p = draw(st.text(S.UNICODE, max_size=3))
         prefixes.append(p)
     prefixes.append("")
+    # near misses of known prefixes: followed / preceded by the delimiter, whole CURIEs, surrounding whitespace - all unknown
+    # unless registered as such
+    for p in draw(st.lists(st.sampled_from(ps), max_size=3)) if ps else []:
+        near = draw(st.sampled_from(["{p}{d}", "{p}{d}{i}", "{d}{p}", " {p}", "{p} ", "{p}\n", "{p}{d}{d}", "{p}{p}"]))
+        prefixes.append(near.format(p=p, d=d, i=draw(S.identifiers(d))))
     case["prefixes"] = prefixes
     return case
 
@@ -65,6 +79,8 @@ def _check_on(c, case, stats: Stats) -> None:
                 stats.nontrivial({"records": recs, "delimiter": d, "kind": "prefix", "x": p}, "prefix-synonym")
         elif any(q.casefold() == p.casefold() for q in known):
             stats.nontrivial({"records": recs, "delimiter": d, "kind": "prefix", "x": p}, "case-variant-unknown")
+        elif d in p and any(p.startswith(q + d) for q in known):
+            stats.nontrivial({"records": recs, "delimiter": d, "kind": "prefix", "x": p}, "known-prefix-plus-delimiter-unknown")
     for s in case["curies"]:
         stats.ev()
         got, exp = c.standardize_curie(s), model.standardize_curie(s)
@@ -75,6 +91,11 @@ def _check_on(c, case, stats: Stats) -> None:
         head, _, tail = s.partition(d)
         if not got.endswith(d + tail) or got[: len(got) - len(d + tail)] != model.standardize_prefix(head):
             raise Violation(f"standardize_curie({s!r}) = {got!r} rewrote more than the prefix part")
+        if d in model.standardize_prefix(head):
+            # a canonical prefix that contains the delimiter cannot be written back as a CURIE of the same converter
+            # (CURIEs split at the FIRST delimiter, C02): the two re-parsing laws are not claimed there
+            stats.cls("canonical-prefix-contains-delimiter:reparse-laws-skipped")
+            continue
         again = c.standardize_curie(got)
         if again != got:
             raise Violation(f"standardize_curie not idempotent: {s!r} -> {got!r} -> {again!r}")
@@ -103,19 +124,14 @@ def _check_on(c, case, stats: Stats) -> None:
 def check(case, stats: Stats) -> None:
     spec = case["spec"]
     _check_on(mk_converter(spec), case, stats)
-    # same laws on a converter grown record by record / synonym by synonym with all queries issued after every mutation
-    n = len(spec["records"])
-    inc = mk_incremental_queried(spec, list(reversed(range(n))), lambda c: query_everything(c, case["uris"] + case["curies"] + case["prefixes"], ()))
-    try:
-        _check_on(inc, case, Stats())
-    except Violation as v:
-        v.message = "[converter built incrementally with interleaved queries] " + v.message
-        raise
-    try:
-        _check_on(mk_split_merge(spec), case, Stats())
-    except Violation as v:
-        v.message = "[converter built by merging whole records that are named after a synonym] " + v.message
-        raise
+    # the same laws on the same converter reached through every other history (grown string by string with all queries
+    # issued after every mutation, merged from whole records, case-insensitive merges, by-standing input of derivations)
+    for how, conv in history_variants(spec, lambda c: query_everything(c, case["uris"] + case["curies"] + case["prefixes"], ()), base=False):
+        try:
+            _check_on(conv, case, Stats())
+        except Violation as v:
+            v.message = f"[converter {how}] " + v.message
+            raise
 
 
 SUBS = [
